@@ -709,6 +709,30 @@ pub fn run_history(h: &[Op8], max_guards: usize) -> Result<Option<Vec<u8>>, Fail
             key.push(240 + *ex as u8 * 4 + *cur);
         }
     }
+    // a second, independent world on the same thread: whatever this world's guards hold, every acquisition on the
+    // other world behaves as on a fresh world (borrows belong to a cell of ONE world, not to a resource id)
+    if !guards.is_empty() {
+        let other = new_world();
+        for aop in [Op8::FetchMut(0), Op8::Fetch(1), Op8::TryFetchMutById(2), Op8::TryFetchById(4), Op8::SysData(0), Op8::MetaIterMutNext] {
+            let (mem, whole_opt) = members(aop).unwrap();
+            let (cls, _) = Model::new().acquire(&mem, whole_opt);
+            let got = match catch_unwind(AssertUnwindSafe(|| acquire_real(&other, &meta, aop).map(|g| g.is_some()))) {
+                Ok(Ok(true)) => Cls::Guard,
+                Ok(Ok(false)) => Cls::None,
+                Ok(Err(e)) => return Err(("absent-resource-yields-guard".into(), e, h.len())),
+                Err(_) => Cls::Panic,
+            };
+            if got != cls {
+                return Err(("borrow-leaks-into-another-world".into(), format!("{:?} on a second, untouched world gave {:?} (a fresh world gives {:?}) while this world's guards hold shared {:?} / exclusive {:?}", aop, got, cls, m.shared, m.excl), h.len()));
+            }
+        }
+        for k in 0..NK as u8 {
+            let st = cell_state(&other, k);
+            if PRESENT[k as usize] && st != 0 {
+                return Err(("borrow-leaks-into-another-world".into(), format!("cell {} of the second world is left borrowed ({})", k, st), h.len()));
+            }
+        }
+    }
     drop(guards);
     for k in 0..NK as u8 {
         let s = cell_state(&world, k);
